@@ -127,7 +127,219 @@ def lines(rng, tier):
     return out
 
 
+# ---------------------------------------------------------------- o_run: graph arguments, both tools, the formula
+from cnfgen.clitools.pbgen import cli as cli_pbgen   # noqa: E402
+
+
+def run_req(cls, name, argv):
+    parts = [cls] + enc_str(name) + [len(argv)]
+    for t in argv:
+        parts += enc_str(t)
+    return req("cli_run", parts)
+
+
+def run_real_formula(cls, name, argv):
+    msgmod._prefix = ""
+    old_in = sys.stdin
+    sys.stdin = io.StringIO("")
+    tool, cli = ("cnfgen", cli_cnfgen) if cls == 0 else ("pbgen", cli_pbgen)
+    try:
+        with contextlib.redirect_stdout(io.StringIO()), contextlib.redirect_stderr(io.StringIO()):
+            try:
+                F = cli([tool, "-q", name] + list(argv), mode="formula")
+                return "OK ok " + common.fmt_formula(F)
+            except CLIError:
+                return "OK cliError"
+            except InternalBug:
+                return "OK internalBug"
+            except SystemExit as e:
+                return "EXIT {}".format(e.code)
+            except BaseException as e:  # noqa: the kind of exception is the observation
+                return "OK escaped:" + type(e).__name__
+    finally:
+        sys.stdin = old_in
+        msgmod._prefix = ""
+
+
+S_GOOD = [["complete", "3"], ["complete", "4"], ["empty", "3"], ["complete", "1"], ["empty", "1"], ["complete", "2"]]
+S_BAD = [["complete", "0"], ["complete", "-1"], ["complete", "x"], ["complete"], ["empty", "0"], ["foo", "3"], ["pyramid", "2"],
+         ["complete", "3", "plantclique"], ["complete", "3", ""], ["complete", "3", "-x"], ["complete", "3", "simple"],
+         ["empty"], ["complete", "2.5"], ["complete", "3", "addedges"], ["complete", "3", "save"], ["kthlist"],
+         ["complete", "1e1"], ["complete", "3", "complete", "3"], ["empty", "3", "4"], ["complete", "+3"], ["complete", "1_0"]]
+D_GOOD = [["pyramid", "1"], ["pyramid", "2"], ["path", "2"], ["path", "0"], ["tree", "1"], ["tree", "2"], ["pyramid", "0"], ["tree", "0"]]
+D_BAD = [["pyramid", "-1"], ["pyramid"], ["pyramid", "x"], ["path", "1", "2"], ["complete", "3"], ["tree", "1", "addedges", "1"],
+         ["pyramid", "1", "save"], ["gml"], ["tree", "-1"], ["path", "1.0"]]
+B_GOOD = [["complete", "3", "2"], ["complete", "2", "2"], ["empty", "2", "2"], ["shift", "3", "4", "1", "2"], ["shift", "2", "3", "1"],
+          ["complete", "1", "1"], ["shift", "3", "3"], ["shift", "4", "3", "3", "1"]]
+B_BAD = [["complete", "3"], ["complete", "0", "2"], ["complete", "3", "x"], ["shift", "3"], ["shift", "3", "4", "1", "1"],
+         ["shift", "3", "4", "5"], ["shift", "3", "4", "-1"], ["empty", "2"], ["foo"], ["complete", "2", "2", "plantbiclique", "1"],
+         ["complete", "3", "2", "splitedges", "1"], ["shift", "0", "3", "1"], ["empty", "2", "-2"]]
+
+
+def graph_lines(rng, tier):
+    out = []
+    SG, DG, BG = S_GOOD + S_BAD, D_GOOD + D_BAD, B_GOOD + B_BAD
+    ints = ["-1", "0", "1", "2", "3", "x", "1.5", ""]
+    for g in SG:
+        for k in ints:
+            out.append(("kclique", [k] + g))
+            out.append(("kcolor", [k] + g))
+            out.append(("domset", [k] + g))
+        for k in ["0", "1", "2", "3"]:
+            out.append(("kcliquebin", [k] + g))
+            out.append(("kclique", [k] + g + ["--no-symmetry-breaking"]))
+            out.append(("kclique", ["--no-symmetry-breaking", k] + g))
+            out.append(("domset", ["-a", k] + g))
+            out.append(("domset", [k] + g + ["--alternative"]))
+        for k, s2 in (("2", "2"), ("3", "2"), ("0", "1"), ("2", "x"), ("-1", "2")):
+            out.append(("ramlb", [k, s2] + g))
+        for name in ("ec", "tiling", "matching", "iso"):
+            out.append((name, list(g)))
+        out.append(("kclique", list(g)))            # the number is missing
+        out.append(("kcolor", ["2", "3"] + g))      # a number too many: it becomes the first word of the graph
+        for fl in ([], ["--total"], ["-s"], ["--knuth2"], ["--knuth3"], ["--plant"], ["--total", "--smart"], ["-t", "-p"]):
+            out.append(("op", fl + g))
+            out.append(("op", g + fl))
+        for ch in ("first", "zero", "one", "second", ""):
+            out.append(("tseitin", [ch] + g))
+    for g1, g2 in itertools.product(SG[:8] + S_BAD[:4], S_GOOD[:4] + S_BAD[:5]):
+        out.append(("iso", g1 + ["-e"] + g2))
+        out.append(("subgraph", ["-G"] + g1 + ["-H"] + g2))
+    out += [("iso", ["-e", "complete", "3"]), ("iso", ["complete", "3", "-e"]), ("subgraph", ["-G", "complete", "3"]),
+            ("subgraph", ["-H", "complete", "2", "-G", "complete", "3"]), ("subgraph", []), ("iso", []),
+            ("subgraph", ["-G", "complete", "3", "-G", "complete", "2", "-H", "empty", "2"])]
+    for d in DG:
+        out.append(("peb", list(d)))
+        for s2 in ints:
+            out.append(("stone", [s2] + d))
+        out.append(("stone", list(d)))
+        out.append(("stone", ["2"] + d + ["--sparse", "3"]))     # degree > stones: the helper's own ValueError
+        out.append(("stone", ["--sparse", "x", "2"] + d))
+    out += [("peb", []), ("stone", []), ("stone", ["2"])]
+    for b in BG:
+        for fl in ([], ["--functional"], ["--onto"], ["--functional", "--onto"]):
+            out.append(("php", b + fl))
+            out.append(("php", fl + b))
+    return out
+
+
+def build_run(info):
+    cls, name, argv = info["cls"], info["name"], [str(a) for a in info["argv"]]
+
+    memo = {}
+
+    def impl():
+        memo["real"] = run_real_formula(cls, name, argv)
+        return memo["real"]
+
+    def oracle():
+        real = memo["real"] if "real" in memo else run_real_formula(cls, name, argv)
+        if real.startswith("OK escaped") or real == "OK internalBug" or real.startswith("EXIT"):
+            return {"command_line": [("cnfgen", "pbgen")[cls], name] + argv, "outcome": real[3:]}
+        return None
+    return Case("o_run", run_req(cls, name, argv), impl, oracle,
+                cls=("cnfgen:", "pbgen:")[cls] + name, nontrivial=bool(argv), info=info)
+
+
+# ---------------------------------------------------------------- o_chain: -T chains after a formula sub-command
+def line_req(line):
+    parts = [len(line)]
+    for t in line:
+        parts += enc_str(t)
+    return req("cli_line", parts)
+
+
+def run_real_line(line):
+    msgmod._prefix = ""
+    old_in = sys.stdin
+    sys.stdin = io.StringIO("")
+    try:
+        with contextlib.redirect_stdout(io.StringIO()), contextlib.redirect_stderr(io.StringIO()):
+            try:
+                F = cli_cnfgen(["cnfgen", "-q"] + list(line), mode="formula")
+                return "OK ok " + common.fmt_cnf(F)
+            except CLIError:
+                return "OK cliError"
+            except InternalBug:
+                return "OK internalBug"
+            except SystemExit as e:
+                return "EXIT {}".format(e.code)
+            except BaseException as e:  # noqa: the kind of exception is the observation
+                return "OK escaped:" + type(e).__name__
+    finally:
+        sys.stdin = old_in
+        msgmod._prefix = ""
+
+
+BASES = [["php", "3", "2"], ["php", "2", "1"], ["parity", "4"], ["op", "3"], ["count", "4", "2"], ["kcolor", "2", "complete", "3"],
+         ["peb", "pyramid", "1"], ["php", "complete", "2", "2"], ["tseitin", "first", "complete", "3"], ["ptn", "5"],
+         ["bphp", "0", "2"], ["php", "x"], ["kcolor", "2", "complete", "0"], ["matching", "complete", "4"], ["ram", "2", "2", "3"]]
+T_OK = [["xor", "2"], ["or", "2"], ["maj", "3"], ["eq", "2"], ["neq", "2"], ["one", "2"], ["ite"], ["lift", "2"], ["flip"],
+        ["none"], ["exact", "3", "1"], ["atleast", "2", "1"], ["atmost", "2", "1"], ["anybut", "2", "1"], ["xor", "1"],
+        ["exact", "2", "3"], ["atleast", "2", "5"], ["lift", "1"], ["maj", "1"], ["maj", "2"], ["or", "1"]]
+T_BAD = [["xor", "0"], ["xor"], ["xor", "2", "3"], ["xor", "x"], ["lift", "0"], ["exact", "3"], ["exact", "0", "1"], ["flip", "1"],
+         ["ite", "2"], [], ["atmost", "2", "-1"], ["eq", "1.5"], ["one", ""], ["anybut", "2"], ["neq", "-1"]]
+
+
+# always run: the only ValueError a transformation can raise behind the validators (left side of the compression graph
+# != number of variables), a chunk without a transformation, a refused graph argument inside a chunk, `-T none`
+CHAIN_CORPUS = [["php", "2", "1", "-T", "xorcomp", "complete", "3", "2"], ["php", "2", "1", "-T", "majcomp", "complete", "3", "2", "-T", "flip"],
+                ["php", "2", "1", "-T", "xorcomp", "complete", "2", "2"], ["parity", "3", "-T", "xorcomp", "shift", "4", "3", "1"],
+                ["php", "2", "1", "-T"], ["php", "2", "1", "-T", "xorcomp", "complete", "x", "2"], ["php", "2", "1", "-T", "none", "-T", "xor", "2"],
+                ["php", "2", "1", "-T", "flip", "-T", "xorcomp", "empty", "3", "2"], ["php", "2", "1", "-T", "xorcomp"]]
+
+
+def chain_lines(rng, tier):
+    out = []
+    for b in BASES:
+        for t in T_OK + T_BAD:
+            out.append(b + ["-T"] + t)
+    # two and more steps: tiny formulas and cheap gadgets only (the size is exponential in the clause width)
+    small = [["php", "2", "1"], ["parity", "3"], ["peb", "path", "1"], ["php", "complete", "2", "1"], ["php", "0"]]
+    cheap = [["xor", "2"], ["or", "2"], ["eq", "2"], ["neq", "2"], ["one", "2"], ["ite"], ["lift", "2"], ["flip"], ["none"],
+             ["xor", "1"], ["atleast", "2", "1"], ["maj", "2"], ["exact", "2", "1"], ["anybut", "2", "2"]]
+    tiny = [["flip"], ["none"], ["xor", "1"], ["or", "1"], ["maj", "1"], ["lift", "1"], ["or", "2"], ["one", "1"]]
+    for b in small:
+        for t1 in cheap + T_BAD[:6]:
+            for t2 in cheap + T_BAD[:5]:
+                out.append(b + ["-T"] + t1 + ["-T"] + t2)
+    for _ in range(40 if tier == "quick" else 300):
+        b = rng.choice(small[:3])
+        n = rng.choice([3, 3, 4, 5])
+        line = list(b)
+        for _i in range(n):
+            line += ["-T"] + rng.choice(tiny + T_BAD[:4])
+        out.append(line)
+    # compression with a bipartite graph argument whose left side is / is not the number of variables
+    for b, l in ((["php", "2", "1"], 2), (["parity", "3"], 3), (["php", "2", "2"], 4)):
+        for g in (["complete", str(l), "2"], ["complete", str(l + 1), "2"], ["shift", str(l), "3", "1"], ["complete", "0", "2"],
+                  ["empty", str(l), "2"], ["foo"], []):
+            out.append(b + ["-T", "xorcomp"] + g)
+            out.append(b + ["-T", "majcomp"] + g + ["-T", "flip"])
+    return out
+
+
+def build_chain(info):
+    line = [str(a) for a in info["line"]]
+    memo = {}
+
+    def impl():
+        memo["real"] = run_real_line(line)
+        return memo["real"]
+
+    def oracle():
+        real = memo["real"] if "real" in memo else run_real_line(line)
+        if real.startswith("OK escaped") or real == "OK internalBug" or real.startswith("EXIT"):
+            return {"command_line": ["cnfgen"] + line, "outcome": real[3:]}
+        return None
+    return Case("o_chain", line_req(line), impl, oracle, cls="chain:{}".format(line.count("-T")), nontrivial=True, info=info)
+
+
 def build(suite, info):
+    if suite == "o_run":
+        return build_run(info)
+    if suite == "o_chain":
+        return build_chain(info)
     if suite != "o_outcome":
         raise ValueError("unknown suite " + suite)
     name, argv = info["name"], [str(a) for a in info["argv"]]
@@ -154,11 +366,47 @@ def cases(ctx):
         cand = []
         for name in sorted(by):
             xs = by[name]
-            cap = 25
+            cap = 10
             fixed = [x for x in xs if (x[0], x[1]) in [(n, a) for n, a in CORPUS]]
             rest = [x for x in xs if x not in fixed]
             cand += fixed + (rest if len(rest) <= cap else rng.sample(rest, cap))
     out = [build("o_outcome", {"name": n, "argv": a}) for n, a in cand]
+    # --- o_run: graph arguments (deterministic constructions), the numeric corpus again with the formula, both tools
+    seen, gl = set(), []
+    for name, argv in graph_lines(rng, tier) + [(n, a) for n, a in CORPUS]:
+        key = (name, tuple(argv))
+        if key not in seen:
+            seen.add(key)
+            gl.append((name, argv))
+    answers = common.run_driver([run_req(0, n, a) for n, a in gl])
+    gl = [c for c, ans in zip(gl, answers) if ans != "UNSUPPORTED"]
+    if tier == "quick":
+        by = {}
+        for c in gl:
+            by.setdefault(c[0], []).append(c)
+        gl = []
+        for name in sorted(by):
+            xs = by[name]
+            gl += xs if len(xs) <= 6 else rng.sample(xs, 6)
+    else:
+        gl = rng.sample(gl, min(len(gl), 700))
+    for n, a in gl:
+        out.append(build("o_run", {"cls": 0, "name": n, "argv": a}))
+    for n, a in rng.sample(gl, min(len(gl), 200 if tier == "thorough" else 16)):
+        out.append(build("o_run", {"cls": 1, "name": n, "argv": a}))
+    # --- o_chain: transformation chains
+    seen, cl = set(), []
+    for line in chain_lines(rng, tier):
+        if tuple(line) not in seen:
+            seen.add(tuple(line))
+            cl.append(line)
+    answers = common.run_driver([line_req(l) for l in cl])
+    cl = [l for l, ans in zip(cl, answers) if ans != "UNSUPPORTED" and len(ans) < 200000]
+    corpus_ans = common.run_driver([line_req(l) for l in CHAIN_CORPUS])
+    cl = [l for l, ans in zip(CHAIN_CORPUS, corpus_ans) if ans != "UNSUPPORTED"] + \
+        rng.sample(cl, min(len(cl), 62 if tier == "quick" else 700))
+    for l in cl:
+        out.append(build("o_chain", {"line": l}))
     for c in out:
         c.info.setdefault("seed", seed)
         c.info.setdefault("tier", tier)
@@ -166,6 +414,8 @@ def cases(ctx):
 
 
 def search(ctx, case):
+    if case.suite in ("o_run", "o_chain"):
+        return case.oracle()
     real = run_real(case.info["name"], [str(a) for a in case.info["argv"]])
     if real.startswith("OK escaped") or real == "OK internalBug":
         return {"command_line": ["cnfgen", case.info["name"]] + list(case.info["argv"]), "outcome": real[3:]}
